@@ -727,7 +727,7 @@ class Gen:
                    "((lambda (k) (if k a (set! r k))) '#t)", "(begin r a)", "(begin (if #f r 1) (+ a 1))", "(if a r 0)", "(cons a r)", "a", "(+ a 1 2)",
                    "(begin (set! r 5) a)", "(lambda () r)", "((lambda (x . r) x) a)", "((lambda (x . q) (if (null? q) x r)) a)",
                    "(if (quotient 1 0) r a)", "((if #t (lambda (k) (if k a r)) 0) 7)", "((lambda (k) (if (- k k) a (length r))) 3)",
-                   "(if (+ '#f) (set! r 2) (* a 2))", "((lambda (f) (f)) (lambda () (if '#f r a)))", "(begin (if '#f (set! b r) 0) (cons a b))"]
+                   "(if (+ '#f) (set! r 2) (* a 2))", "(if (null? r) a b)", "(if (pair? r) (car r) 'none)", "((lambda (k) (if (if k (pair? r) k) 1 2)) 5)", "((lambda (f) (f)) (lambda () (if '#f r a)))", "(begin (if '#f (set! b r) 0) (cons a b))"]
 
     def restflag_lambda(self):
         """a bare lambda with a rest parameter whose only uses / assignments sit in code the pass removes (dead branch behind
